@@ -45,7 +45,7 @@ func init() {
 		ID: "C31",
 		Explanation: "Decides that the three places that interpret core.autocrlf agree: (autocrlf-sets) add normalises to LF for the values {true,input} (fillEncodedObjectFromFile), status hashes normalised content for the same set " +
 			"(diffStagingWithWorktree), checkout converts to CRLF for {true} only; (binary-gate) each of the three sites decides on conversion only after convert.GetStat, on the !IsBinary() edge; (carry-state-updated) the streaming converters of utils/convert refresh every receiver field they keep between Write calls on each path that consumes a chunk (only the empty-chunk edge is exempt), " +
-			"so a line ending split across two chunks is seen; (crlf-untouched) the LF-to-CRLF writer is installed on checkout only on the Stat.CRLF == 0 edge, as git's will_convert_lf_to_crlf does. (crlf-pair-state-carried) every increment of Stat.CRLF is guarded by a condition that reads state carried from one read of the stream to the next, so a CR LF pair that straddles two reads is still a pair. Not decided: the converted bytes themselves; " +
+			"so a line ending split across two chunks is seen; (crlf-untouched) the LF-to-CRLF writer is installed on checkout only on the Stat.CRLF == 0 edge, as git's will_convert_lf_to_crlf does. (crlf-pair-state-carried) every increment of Stat.CRLF is guarded by a condition that reads state carried from one read of the stream to the next, so a CR LF pair that straddles two reads is still a pair. (stat-over-whole-content) the reader handed to convert.GetStat at the three sites derives from the opened file or blob without a truncating wrapper (LimitReader, SectionReader, CopyN, Peek): git gathers the statistics over the whole buffer. Not decided: the converted bytes themselves; " +
 			"the add side's 'blob in the index already has CRLF' exception.",
 		Assumptions: []string{},
 		Run:         runC31,
@@ -602,6 +602,7 @@ func runC31(c *Ctx) {
 	p := c.P
 	checkCarryStateUpdated(c, "carry-state-updated", "utils/convert")
 	PackagesStateFree(c, "codec-state-free", "utils/convert")
+	checkStatOverWholeContent(c, "stat-over-whole-content")
 	const r1 = "autocrlf-sets"
 	pk := p.Pkg("git")
 	if pk == nil {
